@@ -279,6 +279,7 @@ def _coq_shard(args):
         f.write('Definition cases : list %s := [\n' % case_type)
         f.write(';\n'.join(terms))
         f.write('\n].\n')
+        f.write('Set Printing Width 1000000.\n')
         f.write('Eval vm_compute in (bad_codes %s cases).\n' % check)
     try:
         r = subprocess.run('ulimit -s unlimited 2>/dev/null; coqc -Q %s FCA -Q . W %s.v' % (COQ, name),
@@ -290,7 +291,11 @@ def _coq_shard(args):
     m = re.search(r'=\s*(\[.*?\])\s*:\s*list', r.stdout, flags=re.S)
     if not m:
         return idx, None, 'cannot parse: ' + r.stdout[-500:]
-    pairs = [(int(a), int(b)) for a, b in re.findall(r'\((\d+),\s*(\d+)\)', m.group(1))]
+    # Coq wraps long lists at the printing width, possibly right after an opening parenthesis
+    body = m.group(1)
+    pairs = [(int(a), int(b)) for a, b in re.findall(r'\(\s*(\d+)\s*,\s*(\d+)\s*\)', body)]
+    if len(pairs) != body.count('('):
+        return idx, None, 'cannot parse every pair of: ' + body[:400]
     return idx, pairs, ''
 
 
